@@ -489,6 +489,92 @@ var subC19Recv = core.NewSub("C19/receiver-history", func(wk *core.Worker, c smC
 	return nil
 })
 
+// ---- confusable histories: a call on A1 followed by the same call on A2,
+// where A2 is a different point that shares part of A1's raw representation
+// (sign-flip partner), or lives at the same address as A1 did, or is the
+// same point in another representation. A memo keyed on anything less than
+// the point itself returns A1's answer for A2. Also: the identical call
+// repeated on the same slices must give the identical result. ----
+
+type confCase struct {
+	Routine string `json:"routine"`
+	A1      ptIn   `json:"a1"`
+	A2      ptIn   `json:"a2"`
+	SameMem bool   `json:"same_memory"` // A2 overwrites the storage that held A1
+	K       Hex    `json:"k"`
+}
+
+func confCall(routine string, k *edwards25519.Scalar, a *edwards25519.Point, am ref.Pt, kv *big.Int) ([]byte, []byte) {
+	B := ref.Base()
+	enc := func(p ref.Pt) []byte { e := ref.Encode(p); return e[:] }
+	eight := mkScalar(big.NewInt(8))
+	zero := edwards25519.NewScalar()
+	switch routine {
+	case "ScalarMult":
+		return new(edwards25519.Point).ScalarMult(k, a).Bytes(), enc(ref.Mul(kv, am))
+	case "VarTimeDoubleScalarBaseMult":
+		return new(edwards25519.Point).VarTimeDoubleScalarBaseMult(k, a, eight).Bytes(), enc(ref.Add(ref.Mul(kv, am), ref.Mul(big.NewInt(8), B)))
+	case "MultiScalarMult":
+		return new(edwards25519.Point).MultiScalarMult([]*edwards25519.Scalar{k, eight}, []*edwards25519.Point{a, a}).Bytes(), enc(ref.Add(ref.Mul(kv, am), ref.Mul(big.NewInt(8), am)))
+	case "VarTimeMultiScalarMult":
+		// a zero scalar in front of non-zero ones, slices reused for a second identical call
+		sc := []*edwards25519.Scalar{zero, k, eight}
+		ps := []*edwards25519.Point{edwards25519.NewGeneratorPoint(), a, a}
+		r1 := new(edwards25519.Point).VarTimeMultiScalarMult(sc, ps).Bytes()
+		r2 := new(edwards25519.Point).VarTimeMultiScalarMult(sc, ps).Bytes()
+		if !bytes.Equal(r1, r2) {
+			return append(r1, r2...), []byte("two identical calls on the same slices must agree")
+		}
+		return r1, enc(ref.Add(ref.Mul(kv, am), ref.Mul(big.NewInt(8), am)))
+	case "Add":
+		return new(edwards25519.Point).Add(a, a).Bytes(), enc(ref.Add(am, am))
+	case "AddB":
+		return new(edwards25519.Point).Add(a, edwards25519.NewGeneratorPoint()).Bytes(), enc(ref.Add(am, B))
+	case "Subtract":
+		return new(edwards25519.Point).Subtract(edwards25519.NewGeneratorPoint(), a).Bytes(), enc(ref.Sub(B, am))
+	case "Negate":
+		return new(edwards25519.Point).Negate(a).Bytes(), enc(ref.Neg(am))
+	case "MultByCofactor":
+		return new(edwards25519.Point).MultByCofactor(a).Bytes(), enc(ref.Mul(big.NewInt(8), am))
+	case "Bytes":
+		return a.Bytes(), enc(am)
+	case "BytesMontgomery":
+		m := ref.Montgomery(am)
+		return a.BytesMontgomery(), m[:]
+	case "EqualB":
+		e := byte(0)
+		if am.Equal(B) {
+			e = 1
+		}
+		return []byte{byte(a.Equal(edwards25519.NewGeneratorPoint()))}, []byte{e}
+	}
+	panic("bad routine")
+}
+
+var subC19Conf = core.NewSub("C19/confusable-histories", func(w *core.Worker, c confCase) *core.Fail {
+	k := scalarOf(c.K)
+	kv := ref.FromLE(c.K)
+	a1 := c.A1.point()
+	// the call under test, on a fresh copy, before any history
+	g1, w1 := confCall(c.Routine, k, a1, c.A1.model(), kv)
+	if !bytes.Equal(g1, w1) {
+		return core.Failf("%s on %s (flip %d): %x want %x", c.Routine, c.A1.Enc, c.A1.Flip, g1, w1)
+	}
+	var a2 *edwards25519.Point
+	if c.SameMem {
+		a2 = a1
+		a2.Set(c.A2.point())
+	} else {
+		a2 = c.A2.point()
+	}
+	g2, w2 := confCall(c.Routine, k, a2, c.A2.model(), kv)
+	if !bytes.Equal(g2, w2) {
+		return core.Failf("%s on A2=%s (form %d, flip %d) right after the same call on A1=%s (form %d, flip %d; same memory: %v): %x want %x - the result depends on the previous call", c.Routine, c.A2.Enc, c.A2.Form, c.A2.Flip, c.A1.Enc, c.A1.Form, c.A1.Flip, c.SameMem, g2, w2)
+	}
+	w.Distinct("nontrivial:results", g2)
+	return nil
+})
+
 func init() { register("C19", "model_checking", runC19) }
 
 func runC19(ctx *core.Ctx) {
@@ -532,4 +618,30 @@ func runC19(ctx *core.Ctx) {
 		}
 	}
 	subC19Recv.RunList(ctx, cases)
+	// confusable histories
+	var cc []confCase
+	routines := []string{"ScalarMult", "VarTimeDoubleScalarBaseMult", "MultiScalarMult", "VarTimeMultiScalarMult", "Add", "AddB", "Subtract", "Negate", "MultByCofactor", "Bytes", "BytesMontgomery", "EqualB"}
+	ks := []Hex{le32(big.NewInt(1)), le32(big.NewInt(9)), le32(alpha.GenericScalar)}
+	bases := pointIns(true, []int{0, 6})
+	for bi, base := range bases {
+		if ctx.Quick() && bi%3 != 0 {
+			continue
+		}
+		for _, r := range routines {
+			for k := 1; k < len(flipMasks); k++ {
+				a2 := base
+				a2.Flip = k
+				for _, same := range []bool{false, true} {
+					cc = append(cc, confCase{r, base, a2, same, ks[(bi+k)%len(ks)]}, confCase{r, a2, base, same, ks[(bi+k)%len(ks)]})
+				}
+			}
+			// same point, other representation; other point, same memory
+			other := base
+			other.Form = 3
+			cc = append(cc, confCase{r, base, other, false, ks[bi%len(ks)]})
+			np := bases[(bi+5)%len(bases)]
+			cc = append(cc, confCase{r, base, np, true, ks[bi%len(ks)]})
+		}
+	}
+	subC19Conf.RunList(ctx, cc)
 }
